@@ -388,6 +388,57 @@ func reuseCommands(pk *alPkg, up bool, b1, b2 []byte) M {
 	return ev
 }
 
+// subslice: a decoder given a sub-slice (with spare capacity) of a caller buffer must not write to the buffer
+func subsliceEvent(typ string, b []byte, un func(in []byte) error) M {
+	in, backing := withSpare(b)
+	pre := bs(backing)
+	res, _ := observeFast(func() error { return un(in) })
+	return M{"ev": "subslice", "type": typ, "lo": 3, "hi": 3 + len(b), "err": res, "pre": pre, "post": bs(backing)}
+}
+
+func (c *ctx) subsliceEvents() {
+	for _, k := range cmdKeys {
+		kk := k
+		dir, cid := splitKey(k)
+		n := cmdTab[k].size
+		c.emit(subsliceEvent("mac/"+k, c.bytesN(n), func(in []byte) error { return cmdTab[kk].mk().UnmarshalBinary(in) }))
+		cb := append([]byte{byte(cid)}, c.bytesN(n)...)
+		c.emit(subsliceEvent("maccommand/"+k, cb, func(in []byte) error { var m lorawan.MACCommand; return m.UnmarshalBinary(dir == "up", in) }))
+	}
+	cf := c.bytesN(16)
+	cf[15] = byte(c.rnd.Intn(2))
+	c.emit(subsliceEvent("cflist", cf, func(in []byte) error { var x lorawan.CFList; return x.UnmarshalBinary(in) }))
+	fb := c.validFrameBytes()
+	c.emit(subsliceEvent("phy", fb, func(in []byte) error { var x lorawan.PHYPayload; return x.UnmarshalBinary(in) }))
+	c.emit(subsliceEvent("phy+decode", fb, func(in []byte) error {
+		var x lorawan.PHYPayload
+		if err := x.UnmarshalBinary(in); err != nil {
+			return err
+		}
+		x.DecodeFOptsToMACCommands()
+		k := c.key()
+		x.DecryptFRMPayload(k)
+		x.DecryptJoinAcceptPayload(k)
+		return nil
+	}))
+	for _, pn := range alPkgNames {
+		pk := alPkgs[pn]
+		for _, up := range []bool{true, false} {
+			for _, cid := range pk.cids[up] {
+				p := pk.newPayload(up, cid)
+				alFromVal(p, c.genALVal(p))
+				b, err := pk.marshal([]alCmd{{cid, p}})
+				if err != nil || len(b) < 1 {
+					continue
+				}
+				upp, cc := up, cid
+				c.emit(subsliceEvent(fmt.Sprintf("al/%s/%v/%d", pn, up, cid), b[1:], func(in []byte) error { return pk.newPayload(upp, cc).UnmarshalBinary(in) }))
+				c.emit(subsliceEvent(fmt.Sprintf("al/%s/%v/%d/Commands", pn, up, cid), b, func(in []byte) error { _, err := pk.unmarshal(upp, in); return err }))
+			}
+		}
+	}
+}
+
 func bandIsoEvent(c *ctx, name band.Name) (M, error) {
 	a, err := band.GetConfig(name, false, lorawan.DwellTimeNoLimit)
 	if err != nil {
@@ -427,6 +478,7 @@ func drvOwn(c *ctx) error {
 	case "reuse":
 		for i := 0; i < c.n; i++ {
 			c.reuseEvents()
+			c.subsliceEvents()
 		}
 	case "bands":
 		for i := 0; i < c.n; i++ {
